@@ -1127,7 +1127,8 @@ check_case(k3_case *c, const k3_ctx *x, const int is_ref)
                                 m = 0xff;
                         if ((os->cur[i] ^ os->init[i]) & (uint8_t) ~m) {
                                 fail(c, x, "src_outside_range", "src",
-                                     "off=%zu before=%02x after=%02x", i, os->init[i], os->cur[i]);
+                                     "off=%zu mask=%02x before=%02x after=%02x range=[%zu,%zu)", i, m, os->init[i],
+                                     os->cur[i], c->doff_ip + c->d_from, c->doff_ip + c->d_to);
                                 break;
                         }
                 }
